@@ -101,6 +101,9 @@ class CallMixin:
             return [(st, BM(base, name))]
         if isinstance(base, SymObj):
             d = _static(base.cls, name)
+            if isinstance(d, property) and self.attr_alias(name) != name:
+                name = self.attr_alias(name)
+                d = _static(base.cls, name)
             if isinstance(d, property):
                 return self.call_function(st, d.fget, [base], {}, node, selfcls=base.cls)
             if name in self.oattrs(st, base):
@@ -128,6 +131,8 @@ class CallMixin:
                 return [(st, PyC(None))]
             if d is _MISSING:
                 d = None
+            if isinstance(d, property) and self.attr_alias(name) != name:
+                d = None      # transparent getter: read the aliased attribute
             if isinstance(d, property):
                 return self.call_function(st, d.fget, [v], {}, node, selfcls=v.cls)
             if inspect.isfunction(d):
@@ -515,6 +520,8 @@ class CallMixin:
                 return self.call_function(st, f, [PyC(cls)] + args, kwargs, node, selfcls=cls)
         so = SymObj(cls, args=(args, kwargs))
         init = _static(cls, "__init__")
+        if (init is None or not inspect.isfunction(init)) and issubclass(cls, dict) and not args and set(kwargs) == {"__symbolic__"}:
+            args, kwargs = [kwargs["__symbolic__"]], {}
         if (init is None or not inspect.isfunction(init)) and issubclass(cls, dict) and len(args) == 1 and not kwargs:
             lv = self.lift(args[0])
             so.attrs["__dictview__"] = Val(self.as_dict(asV(lv)), kind="dict")
@@ -844,7 +851,11 @@ class CallMixin:
         s_ok.assume(f"({ctor} {r.t})")
         passes = Or(*[And(*pcx) for pcx, c, v in normal if c == TRUE]) if normal else FALSE
         has_filter = bool(g.ifs)
-        if kind == "dict" and not skolem:
+        key_preserving = False
+        if kind == "dict" and not skolem and not g.ifs and isinstance(n.key, ast.Name) and isinstance(g.target, ast.Tuple) \
+                and isinstance(g.target.elts[0], ast.Name) and g.target.elts[0].id == n.key.id and self.lift(it).kind == "dict_items":
+            key_preserving = True      # {k: f(v) for k, v in d.items()}: item-wise image of d, same keys in the same order
+        if kind == "dict" and not skolem and not key_preserving:
             # a dict comprehension is a lookup table: a key is present iff some passing index produces it, and its value
             # is the one produced by the *last* such index (later entries overwrite earlier ones)
             vals = [(And(*pcx), v) for pcx, c_, v in normal if c_ == TRUE]
@@ -883,6 +894,9 @@ class CallMixin:
                     t = vt if t is None else Ite(cnd, vt, t)
                 return at(t, var) if t is not None else "v_none"
             s_ok.assume(f"(<= (seq.len {rs}) (seq.len {sq}))")
+            if key_preserving:
+                s_ok.assume(f"(=> (dict_wf {asV(self.lift(it))}) (dict_wf {r.t}))")
+                self.trusted_used.add("{k: f(v) for k, v in d.items()} has d's keys in d's order (well-formedness preserved)")
             if not has_filter and kind != "set":
                 s_ok.assume(f"(= (seq.len {rs}) (seq.len {sq}))")
                 s_ok.assume(f"(forall (({q} Int)) (! (=> (and (<= 0 {q}) (< {q} (seq.len {sq}))) (= (seq.nth {rs} {q}) {elt_term(q)})) :pattern ((seq.nth {rs} {q}))))")
